@@ -98,7 +98,7 @@ type Property struct {
 
 // Sim runs body as the main task of a fresh simulation in a fresh bubble.
 func Sim(t *testing.T, b *Base, kills []simrt.Kill, body func()) (rep *simrt.Report, harnessErr string) {
-	cfg := simrt.Config{Tape: b.Tape, MaxSteps: b.MaxSteps, Kills: kills, KeepTrace: os.Getenv("VERIF_TRACE") != ""}
+	cfg := simrt.Config{Tape: ExpandTape(b.Tape), MaxSteps: b.MaxSteps, Kills: kills, KeepTrace: os.Getenv("VERIF_TRACE") != ""}
 	defer func() {
 		if r := recover(); r != nil {
 			harnessErr = fmt.Sprintf("panic around bubble: %v", r)
@@ -116,13 +116,54 @@ func Sim(t *testing.T, b *Base, kills []simrt.Kill, body func()) (rep *simrt.Rep
 	return rep, harnessErr
 }
 
+// TailMark flags the last element of a tape as the seed of a generated tail: the explicit choices are
+// followed by tailLen more, produced by a small PRNG from that seed, instead of by "keep running the
+// same task" for the rest of the run. Long runs would otherwise be scheduled run-to-completion after
+// their first few dozen decision points (rapid draws short slices far more often than long ones).
+// The tail is a pure function of the tape, so a tape still decides the whole schedule.
+const (
+	TailMark = 1 << 16
+	tailLen  = 4000
+)
+
+// ExpandTape returns the choices the scheduler will consume for a stored tape.
+func ExpandTape(tape []uint32) []uint32 {
+	if len(tape) == 0 || tape[len(tape)-1] < TailMark {
+		return tape
+	}
+	seed := tape[len(tape)-1]
+	out := make([]uint32, 0, len(tape)-1+tailLen)
+	out = append(out, tape[:len(tape)-1]...)
+	x := uint64(seed)*0x9E3779B97F4A7C15 + 1
+	stay := []uint64{3, 6, 9}[seed%3] // out of 10 decision points, how many keep the current task
+	for i := 0; i < tailLen; i++ {
+		x ^= x << 13
+		x ^= x >> 7
+		x ^= x << 17
+		if (x>>8)%10 < stay {
+			out = append(out, 0)
+		} else {
+			out = append(out, uint32(1+(x>>20)%7))
+		}
+	}
+	return out
+}
+
+// withTail appends a tail seed to a drawn tape in half of the runs.
+func withTail(rt *rapid.T, tape []uint32) []uint32 {
+	if rapid.IntRange(0, 1).Draw(rt, "tapeTail") == 1 {
+		tape = append(tape, TailMark+rapid.Uint32Range(0, 1<<15).Draw(rt, "tailSeed"))
+	}
+	return tape
+}
+
 // DrawTape draws a choice tape. The scheduling policy is itself drawn per run
 // (swarm style): how often a decision point keeps the current task running.
 func DrawTape(rt *rapid.T, maxLen int) []uint32 {
 	mode := rapid.IntRange(0, 3).Draw(rt, "schedMode")
 	switch mode {
 	case 0: // uniform
-		return rapid.SliceOfN(rapid.Uint32Range(0, 7), 0, maxLen).Draw(rt, "tape")
+		return withTail(rt, rapid.SliceOfN(rapid.Uint32Range(0, 7), 0, maxLen).Draw(rt, "tape"))
 	case 1, 2: // sticky: mostly keep running the current task
 		zeroOutOf10 := 5
 		if mode == 2 {
@@ -134,7 +175,7 @@ func DrawTape(rt *rapid.T, maxLen int) []uint32 {
 			}
 			return rapid.Uint32Range(1, 7).Draw(t, "v")
 		})
-		return rapid.SliceOfN(g, 0, maxLen).Draw(rt, "tape")
+		return withTail(rt, rapid.SliceOfN(g, 0, maxLen).Draw(rt, "tape"))
 	default: // PCT-like: run to completion except at d<=3 change points
 		n := rapid.IntRange(0, maxLen).Draw(rt, "tapeLen")
 		tape := make([]uint32, n)
@@ -608,6 +649,9 @@ func (r *runner) replay(t *testing.T, path string) {
 		t.Fail()
 	default:
 		fmt.Printf("REPLAY-OK property=%s: the recorded violation does not occur on this tree (history hash %s, recorded %s)\n", rf.Property, gotHash, rf.LogHash)
+		for _, v := range out.Violations {
+			fmt.Printf("  note: this scenario shows a violation of another kind on this tree: kind=%s %s\n", v.Kind, v.Msg)
+		}
 	}
 }
 
